@@ -135,6 +135,12 @@ TraceNext ==
              \/ \E t2 \in Threads : /\ w[t2].st \in {"drawn", "applying"} /\ w[t2].ai < Len(w[t2].items)
                                      /\ w[t2].items[w[t2].ai + 1][1] = rd[Ev.t].c
                                      /\ w[t2].items[w[t2].ai + 1][2] = Ev.val
+             \* ... likewise a clear of the cell's keyspace that is being applied right now (announced
+             \* as an item with key 0; tree.clear() runs before its WApply event is emitted)
+             \/ /\ Ev.val = 0
+                /\ \E t2 \in Threads : /\ w[t2].st \in {"drawn", "applying"} /\ w[t2].ai < Len(w[t2].items)
+                                        /\ w[t2].items[w[t2].ai + 1][1][2] = 0
+                                        /\ w[t2].items[w[t2].ai + 1][1][1] = rd[Ev.t].c[1]
           /\ rd' = [rd EXCEPT ![Ev.t] = NoRd]
           /\ Keep(<<vars, pendop, okf, vopen>>)
        \* ---- snapshots
